@@ -11,7 +11,11 @@ import resource, sys
 resource.setrlimit(resource.RLIMIT_AS, (768 << 20, 768 << 20))
 sys.path.insert(0, %r)
 from compiler import universe, rule_translate
-p = universe.LogicaProgram.__new__(universe.LogicaProgram)
+try:
+  from parser_py import parse
+  p = universe.LogicaProgram(parse.ParseFile('@Engine("sqlite");\nT(1);')['rule'])
+except Exception:
+  p = universe.LogicaProgram.__new__(universe.LogicaProgram)
 p.flag_values = {'f': '${f}${f}'}
 try:
   r = p.UseFlagsAsParameters('SELECT ${f}')
